@@ -182,6 +182,7 @@ def affinity_matrix(chk):
         order = ["high", "allowed", "never", "none"]
         rng.shuffle(order)
         want = {}
+        changing = []
         for q, aff in enumerate(order):
             j = 20 + q
             cmds.append("node %d key=%d name=n10 idle=600000 keepalive=5000" % (j, 10 + j))
@@ -191,10 +192,22 @@ def affinity_matrix(chk):
             cmds += ["connect %d 0" % j, "sleep 300", "disconnect %d 0" % j, "sleep 300"]
             ops += ["D %d 100" % j, "X %d 100" % j]
             want[j] = aff in ("high", "allowed")
+        # the table changes over time: an entry overwritten in place (Never -> Allowed, Allowed -> Never, Never -> High -> none)
+        j = 30
+        cmds.append("node %d key=%d name=n10 idle=600000 keepalive=5000" % (j, 10 + j))
+        for aff in ("never", "allowed", "never", "high", "none"):
+            if aff == "none":
+                cmds.append("unknown 0 %d" % j)
+            else:
+                cmds.append("known 0 %d %s%s" % (j, aff, " addr=none" if aff == "high" else ""))
+            ops.append("K 100 %d %s" % (j, aff))
+            cmds += ["connect %d 0" % j, "sleep 300", "disconnect %d 0" % j, "sleep 300"]
+            ops += ["D %d 100" % j, "X %d 100" % j]
+            changing.append(aff in ("high", "allowed"))
         cmds.append("peers 0")
         scen.append("simnet " + " ; ".join(cmds))
         metas.append((limit, order, want))
-        spec = "100:10:-:%d;" % limit + ";".join("%d:10:-:-" % j for j in list(range(1, limit + 1)) + [20, 21, 22, 23])
+        spec = "100:10:-:%d;" % limit + ";".join("%d:10:-:-" % j for j in list(range(1, limit + 1)) + [20, 21, 22, 23, 30])
         models.append("netmodel %s | %s" % (spec, " / ".join(ops)))
     outs, parsed = simnet.run_scenarios(chk, scen, "fabric:affinity-at-the-limit")
     for sc, res, (limit, order, want), mo in zip(scen, parsed, metas, run_model(models)):
@@ -208,6 +221,10 @@ def affinity_matrix(chk):
             chk.count("at-the-limit:%s:%s" % (order[j - 20], "admitted" if got else "refused"))
             if got != w:
                 chk.monitor_fail("node at its limit of %d: a dialer with affinity %s was %s" % (limit, order[j - 20], "admitted" if got else "refused"), dict(case=sc))
+        got30 = [res[k].startswith("ok") for k, c in enumerate(cl) if c == "connect 30 0"]
+        wants30 = [True if a in ("high", "allowed") else False if a == "never" else (limit > len([c for c in cl if c.startswith("connect ") and c.endswith(" 0") and int(c.split()[1]) < 20])) for a in ("never", "allowed", "never", "high", "none")]
+        if got30 != wants30:
+            chk.monitor_fail("node at its limit of %d, a peer whose table entry is overwritten in place (never, allowed, never, high, removed): its dials were admitted %s, the entries in force require %s" % (limit, got30, wants30), dict(case=sc))
         mdials = [x.split(" L=")[0] for x in mres if x.startswith(("ok", "err"))]
         idials = [("ok100" if res[k].startswith("ok") else "err") for k, c in enumerate(cl) if c.startswith("connect ") and c.endswith(" 0")]
         if [x for x in mdials] != idials:
